@@ -238,7 +238,7 @@ def check_delegation(ctx, f, B, m, ap, recv_place, rt_place, rule='D'):
             ctx.fail(rule + '.delegates', m, loc(B.root), 'a path of %s does not return (%s)' % (m, o.kind)); continue
         n += 1
         cs = sem.calls(o, lambda c: c == ap)
-        if not cs and state is not None:
+        if not cs and state is not None and not sem.calls(o, lambda c: c.startswith(family) and not accessor(c)):
             # a path of the wrapper that answers by itself.  Acceptable exactly when the sibling, entered in the case the path
             # selects - this value of the state, and whatever else the path tested, carried over as assumptions about the sibling's
             # own receiver -, returns the same value on every path and does nothing: then the test is the sibling's own first test
